@@ -502,6 +502,8 @@ class ExprMixin:
             j = z3.Int(fresh_name("j"))
             n = st.list_len(cont.ty, cont.t)
             e = st.list_elems(cont.ty, cont.t)
+            if x.ty.kind == "val" and cont.ty.args[0].kind != "val":
+                return z3.Exists([j], z3.And(0 <= j, j < n, box(SV(cont.ty.args[0], e[j])) == x.t))
             xv = self.coerce(x, cont.ty.args[0], st)
             return z3.Exists([j], z3.And(0 <= j, j < n, e[j] == xv.t))
         if k == "tuple":
